@@ -16,7 +16,7 @@ CONFIGS = {
         "kind": "mutex",
         "quick": [
             (["m_lock_w", "m_lock_w"], 24, 600),
-            (["m_lock_w_lock_r", "m_lock_w"], 26, 900),
+            (["m_lock_w_lock_r", "m_lock_w"], 22, 900),
             (["m_try_w", "m_lock_w"], 20, 600),
             (["m_try_then_lock_w", "m_try_w"], 22, 600),
             (["m_lock_w", "m_lock_w", "m_lock_w"], 20, 1200),
